@@ -48,7 +48,7 @@ claim(
     "closed witness that the signature is real; stored content is format independent (C09 `decode_encode`); every candidate iteration "
     "graph denotes the assignment (`toIterationGraphs_denote_source`). The lowering pass is ported (exact IR correspondence each run) "
     "and proved correct on the machine piecewise: the terminal block for both output kinds (`toIr_sound`, `terminal_append_sound`, "
-    "`terminal_bucket_sound`, exact over Rat), and END TO END for ten problem classes (the tenth: two-level compressed copy/scale `sparse2_kernel_correct`): dense element-wise vector kernels "
+    "`terminal_bucket_sound`, exact over Rat), and END TO END for thirteen problem classes (besides those named here: two-level compressed copy `sparse2_kernel_correct`, CSR copy `csr_kernel_correct`, sparse dot product `spdot_kernel_correct`, dense-to-compressed conversion `d2s_kernel_correct`): dense element-wise vector kernels "
     "(`evaluate_correct_dense1`: from the source assignment through desugar, best_algorithm and generate_ir to the final machine state, "
     "output cells = `denote a` for all sizes and inputs), dense element-wise kernels of every order (`denseN_kernel_correct`), every "
     "all-dense single-term contraction with arbitrary loop nests incl. the matrix product (`denseTerm_kernel_correct`, `matmul_kernel_denote`), "
